@@ -3,6 +3,7 @@ C09 — sessions are granted only to authorised keys and the fixed service users
 -/
 import DtailModel.Model.Auth
 import DtailModel.Lemmas.GenAuth
+set_option autoImplicit false
 namespace Dtail.C09
 open Dtail
 
